@@ -494,7 +494,7 @@ MIXED = {
                             weights=dict(subscribe=6, unsubscribe=3, publish=9, disconnect=3, connect=5, tick=3)), dict(max_inflight=[8192, 8192, 2], max_msg_expiry=[86400, 100])),
     "C40": ("routing", dict(versions=[5, 5, 4], shared=0.1, qos=[0, 1, 2], retain=0.4, empty_payload=0.2,
                             filters=[["a"], ["a", "#"], ["a", "+"], ["#"], ["b"], ["+", "#"]], topics=[["a"], ["a", "b"], ["b"], ["$a", "b"]],
-                            weights=dict(subscribe=4, unsubscribe=1, publish=6, disconnect=1, connect=1, inline_publish=8, inline_subscribe=6, inline_unsubscribe=3)), dict(inline=[True])),
+                            weights=dict(subscribe=6, unsubscribe=5, publish=6, disconnect=2, connect=2, inline_publish=9, inline_subscribe=6, inline_unsubscribe=3), len=(20, 50)), dict(inline=[True])),
     "C30": ("routing", dict(versions=[5, 5, 4, 3], bad_filters=0.5, qos=[0, 1], sys_topics=0.3, in_alias=0.4, alias_max=2, retain=0.3, filters=[["#"], ["$SYS", "#"], ["a"], ["+"]],
                             weights=dict(subscribe=10, unsubscribe=1, publish=8, disconnect=1, connect=1)), dict()),
 }
